@@ -96,7 +96,9 @@ OFill(n, s)   == [op |-> "fill", n |-> n, s |-> s]       \* add_named_placeholde
 OList(k, c)   == [op |-> "list", k |-> k, compact |-> c] \* generate_multiline_list of k items, before "f", delim ("(", ")")
 NL == "\n"
 Ops == {OEmit(s) : s \in Texts} \cup {ORaw(s) : s \in Texts \ {<<>>}} \cup {OIndent, OBlock(<<"a">>), OPop}
-       \cup {OHolder("x"), OHolder(""), OFill("x", <<"{", "a">>), OFill("", <<"}", "e">>)}
+       \cup {OHolder("x"), OHolder(""), OFill("x", <<"{", "a">>), OFill("", <<"}", "e">>),
+             \* registered text with adjacent braces: it is substituted as it is, never un-escaped
+             OFill("x", <<"{", "{", "a", "}", "}">>), OFill("", <<"}", "}", "{", "{">>)}
        \cup {OList(k, c) : k \in 0..3, c \in BOOLEAN}
 
 \* --- operational: the buffer machine of stone/backend.py
